@@ -1,0 +1,18 @@
+//go:build verif
+
+package publicip
+
+import (
+	"net/http"
+	"time"
+
+	"github.com/cenkalti/backoff/v5"
+)
+
+// VerifNewPublicIPFetcher builds the production fetcher around the given HTTP client.
+func VerifNewPublicIPFetcher(client *http.Client) *PublicIPFetcher {
+	backoffPolicy := backoff.NewExponentialBackOff()
+	backoffPolicy.InitialInterval = 500 * time.Millisecond
+	backoffPolicy.MaxInterval = 3 * time.Second
+	return &PublicIPFetcher{client: client, backoffPolicy: backoffPolicy}
+}
